@@ -230,9 +230,12 @@ fn transform(
     // the first coordinate is larger than 1000, the output is most
     // probably not in degrees. Hence give 5 decimals for linear units,
     // 10 for angular
-    let decimals = options
-        .decimals
-        .unwrap_or(if operands[0][0] > 1000. { 5 } else { 10 });
+    // The guess is made once (from the first coordinate of the first batch),
+    // so the output format does not change at the internal batch boundaries
+    static GUESSED_DECIMALS: std::sync::OnceLock<usize> = std::sync::OnceLock::new();
+    let decimals = options.decimals.unwrap_or_else(|| {
+        *GUESSED_DECIMALS.get_or_init(|| if operands[0][0] > 1000. { 5 } else { 10 })
+    });
 
     // Finally output the transformed coordinates
     for coord in operands {
